@@ -388,7 +388,10 @@ def judgeDeliv (N : Nat) (qlens : List Nat) (pubs handed : List String) : String
 /-- c20_saveload -/
 def judgeSaveLoad (now : Int) (before after : DL) : String :=
   if after.fn != before.fn.filter (keep now) then
-    (if after.fn == (before.fn.filter (keep now)).reverse then "viol reversed" else "viol content")
+    (if after.fn == (before.fn.filter (keep now)).reverse then "viol reversed"
+     else if after.fn.length < (before.fn.filter (keep now)).length then
+       s!"viol lost={(before.fn.filter (keep now)).length - after.fn.length} of {(before.fn.filter (keep now)).length}"
+     else "viol content")
   else if !decide after.wf then "viol pointers-inconsistent"
   else "ok"
 
